@@ -26,6 +26,7 @@ import (
 	"fmt"
 	"math/big"
 	"os"
+	"sort"
 	"strconv"
 	"strings"
 
@@ -530,6 +531,8 @@ func exec(line string) (res string) {
 		return execSingle(line, w)
 	case "pow", "powf":
 		return execPow(line, w)
+	case "plug":
+		return execPlug(line, w)
 	}
 	return "bad-op"
 }
@@ -720,7 +723,7 @@ func main() {
 		out.Case(line, nontrivial)
 		kind := strings.Fields(line)[0]
 		switch kind {
-		case "tdacc", "xpacc", "single", "pow", "powf":
+		case "tdacc", "xpacc", "single", "pow", "powf", "plug":
 			out.Count(kind + ":" + r)
 		default:
 			out.Count(kind)
@@ -1051,6 +1054,56 @@ func main() {
 			out.Sample(map[string]string{"op": line, "impl": r})
 		}
 	}
+	// 8. the pluggable-consensus layer: every genesis kind x every upgrade sequence of up to 2 (thorough: 3) upgrades
+	//    x patterns of live upgrades and restarts x every candidate kind
+	plugKinds := []string{"s0", "s1", "p", "t", "x"}
+	plugCands := []string{"s0", "s1", "sp0", "p", "ps0", "t", "x", "n"}
+	maxUps := 2
+	if thorough {
+		maxUps = 3
+	}
+	var upSeqs [][]string
+	var rec func(cur []string)
+	rec = func(cur []string) {
+		upSeqs = append(upSeqs, append([]string{}, cur...))
+		if len(cur) == maxUps {
+			return
+		}
+		for _, k := range plugKinds {
+			rec(append(cur, k))
+		}
+	}
+	rec(nil)
+	sort.SliceStable(upSeqs, func(i, j int) bool { return len(upSeqs[i]) < len(upSeqs[j]) }) // short histories first: minimal witnesses
+	for _, ups := range upSeqs {
+		for _, g := range plugKinds {
+			k := len(ups)
+			pats := map[string]bool{strings.Repeat("U", k): true, strings.Repeat("U", k) + "R": true, strings.Repeat("UR", k): true, "R" + strings.Repeat("U", k): true}
+			if k >= 1 {
+				pats[strings.Repeat("U", k-1)+"RU"] = true
+				pats["UR"+strings.Repeat("U", k-1)+"R"] = true
+				pats[strings.Repeat("U", k)+"RR"] = true
+			}
+			var ps []string
+			for p := range pats {
+				ps = append(ps, p)
+			}
+			sort.Strings(ps)
+			upTok := "-"
+			if k > 0 {
+				upTok = strings.Join(ups, ",")
+			}
+			for _, p := range ps {
+				if p == "" {
+					p = "-"
+				}
+				for _, c := range plugCands {
+					run(fmt.Sprintf("plug %s %s %s %s", g, upTok, p, c), true)
+				}
+			}
+		}
+	}
+	out.Sample(map[string]string{"op": "plug s0 p UR sp0", "impl": exec("plug s0 p UR sp0")})
 	out.Sample(map[string]string{"op": "tdr 3 2 0 3 2 3 0 40", "impl": exec("tdr 3 2 0 3 2 3 0 40")})
 	out.Sample(map[string]string{"op": "sc 486604799", "impl": exec("sc 486604799")})
 	out.Stats.Exhaustive = false
